@@ -7,7 +7,11 @@ generator and evolution code; a fraction of the sessions runs free on real
 threads as a cross-check).  Everything is recorded at the client boundary
 (per-worker lists, merged after join) and by a harness-defined recording
 `DNAGenerator` that wraps the algorithm; an offline checker decides all
-clauses from the merged history and `pg.poll_result(name)`.
+clauses from the merged history and `pg.poll_result(name)`.  Group ids come
+from the whole documented domain (ints and strs, the falsy 0 and '' included,
+next to workers without a group); the evaluation of a trial may take several
+iterations of its worker (the pending trial is handed out again), every worker
+iterates until its loop ends.
 
 A second family of cases ("window sessions", case indices >= `cases`) aims at
 races of first use, which have one chance per study: short fresh studies whose
@@ -167,7 +171,7 @@ def gen_defers(rng, w, n):
                         rng.choice(['measure', 'measure', 'nothing']))
                        for _ in range(n + 2)] for _ in range(w)]
   m = rng.randint(2, 6)                      # iterations per trial, every trial
-  n = rng.randint(4, max(4, 30 // m))
+  n = rng.randint(4, max(4, 24 // m))
   kind = rng.choice(['measure', 'measure', 'measure', 'nothing'])
   return style, n, [[(m - 1, kind)] * (n + 2) for _ in range(w)]
 
@@ -863,11 +867,16 @@ def check_session(sess, counters):
     if end_loop_called:
       # A trial whose evaluation was still going on (no done/skip call yet)
       # when the loop was ended stays pending; one that was finished does not.
+      # One that nobody was ever handed has no evaluation going on either.
       pending = [t for t in pending
-                 if any(f[4] == 'ok' for f in finish.get(t.dna.userdata.get('pid'), []))]
+                 if t.dna.userdata.get('pid') not in got
+                 or any(f[4] == 'ok' for f in finish.get(t.dna.userdata.get('pid'), []))]
       c['check:not-completed-after-end_loop'] += 1
     if pending:
-      bad('not-completed', 'quiescence' + rtag,
+      # harness fact: (one of) the unfinished trial(s) had been handed to its
+      # worker by more than one iteration
+      again = any(t.dna.userdata.get('pid') in redelivered for t in pending)
+      bad('not-completed', 'quiescence' + ('@redelivery' if again else ''),
           f'trials {[t.id for t in pending]} are not COMPLETED after all '
           f'workers returned: {[(t.id, t.status) for t in trials]}; finish calls on them: '
           f'{[(t.id, sorted(finish.get(t.dna.userdata.get("pid"), []))) for t in pending]}')
